@@ -21,7 +21,8 @@ UNITS = {
     'ingest': {'template': 'units/ingest/unit.rs', 'serves': ['C12', 'C13', 'C16'], 'min_verified': 10},
     'sampler': {'template': 'units/sampler/unit.rs', 'serves': ['C17'], 'min_verified': 36},
     'engine': {'template': 'units/engine/unit.rs', 'serves': ['C20'], 'min_verified': 18},
-    'trie': {'template': 'units/trie/unit.rs', 'serves': ['C20'], 'min_verified': 55},
+    'trie': {'template': 'units/trie/unit.rs', 'serves': ['C20'], 'min_verified': 68},
+    'lthash': {'template': 'units/lthash/unit.rs', 'serves': ['C20'], 'min_verified': 19},
     'vshreds': {'template': 'units/vshreds/unit.rs', 'serves': ['C11', 'C10'], 'min_verified': 10},
     'slot_state': {'template': 'units/slot_state/unit.rs', 'serves': ['C03', 'C04', 'C06'], 'min_verified': 93},
 }
@@ -48,6 +49,12 @@ KANI = {
          'target': 'src/execution/state.rs Branch::child_index: every bitmap and chunk: None iff bit clear, else rank of the chunk'},
         {'name': 'kani_chunks_determine_the_key', 'kind': 'complete', 'timeout': 600,
          'target': 'src/execution/state.rs chunk_at: any two 32-byte keys that agree on all 52 chunks are equal (axiom_chunks_determine_key of unit trie)'},
+        {'name': 'kani_lthash_add_assign_is_lanewise_wrapping_add', 'kind': 'complete', 'timeout': 900, 'tier': 'thorough',
+         'target': 'src/execution/commitment.rs AddAssign<&LtHash>: all 1024 lanes symbolic, the real zip loop is the lane-wise wrapping sum (second opinion on the R4-rewritten loop of unit lthash)'},
+        {'name': 'kani_lthash_sub_assign_is_lanewise_wrapping_sub', 'kind': 'complete', 'timeout': 900, 'tier': 'thorough',
+         'target': 'src/execution/commitment.rs SubAssign<&LtHash>: all 1024 lanes symbolic, lane-wise wrapping difference'},
+        {'name': 'kani_lthash_identity_is_zero', 'kind': 'complete', 'timeout': 300,
+         'target': 'src/execution/commitment.rs LtHash::identity: every lane zero'},
         {'name': 'kani_popcount_below_is_rank', 'kind': 'complete', 'timeout': 300,
          'target': 'u32::count_ones on `bitmap & ((1 << chunk) - 1)`, every bitmap and chunk < 32: the number of set bits below the chunk (axiom_popcount_is_rank of unit trie)'},
     ],
